@@ -22,12 +22,28 @@ Definition call_text (k : call) : option (skind * bytes) :=
   | CF32p b p => Some (Unq, fdisp false b (Some p))
   | CF64p b p => Some (Unq, fdisp true b (Some p))
   | CDate wide r => Some (Unq, game_fmt wide r)
+  (* write_binary forwards to the same primitives *)
+  | CBinary (BBool b) => Some (Unq, if b then YES else NO)
+  | CBinary (BU32 n) | CBinary (BU64 n) => Some (Unq, dec_N' n)
+  | CBinary (BI32 z) | CBinary (BI64 z) => Some (Unq, dec_Z z)
+  | CBinary (BQuoted p) => Some (Quo, escape p)
+  | CBinary (BUnquoted s) => Some (Unq, s)
+  | CBinary (BF32 b) => Some (Unq, fdisp false b None)
+  | CBinary (BF64 b) => Some (Unq, fdisp true b None)
+  | CBinary (BToken id) => Some (Unq, UNKNOWN_PREFIX ++ hex_N id)
   | _ => None
   end.
 
+(* the structural calls and their write_binary aliases *)
+Definition is_end (k : call) : bool := match k with CEnd | CBinary (BEnd _) => true | _ => false end.
+Definition is_ostart (k : call) : bool := match k with CObjectStart | CBinary (BObject _) => true | _ => false end.
+Definition is_astart (k : call) : bool := match k with CArrayStart | CBinary (BArray _) => true | _ => false end.
+Definition is_rgb (k : call) (r g b : N) (a : option N) : Prop := k = CRgb r g b a \/ k = CBinary (BRgb r g b a).
+
 (* explicit or implicit `=`; any other operator is explicit *)
 Definition cop (op : option operator) (ops : list call) : Prop :=
-  (ops = [] /\ (op = None \/ op = Some Equal)) \/ (exists o, op = Some o /\ ops = [COperator o]).
+  (ops = [] /\ (op = None \/ op = Some Equal)) \/ (exists o, op = Some o /\ ops = [COperator o]) \/
+  (op = Some Equal /\ ops = [CBinary BEqual]).
 
 Definition rgb_expand (r g b : N) (a : option N) : list call :=
   [CHeader RGB; CArrayStart; CU32 r; CU32 g; CU32 b] ++ (match a with Some x => [CU32 x] | None => [] end) ++ [CEnd].
@@ -35,16 +51,18 @@ Definition rgb_expand (r g b : N) (a : option N) : list call :=
 (* [cv v cs]: the call list cs writes the value v *)
 Inductive cv : value -> list call -> Prop :=
 | cv_scalar k kd s : call_text k = Some (kd, s) -> cv (VScalar kd s) [k]
-| cv_obj fs cs : cfs fs cs -> cv (VObject fs VNil) (CObjectStart :: cs ++ [CEnd])
-| cv_arr items cs : cis items cs -> cv (VArray items) (CArrayStart :: cs ++ [CEnd])
-| cv_obj_empty : cv (VArray VNil) [CObjectStart; CEnd]
+| cv_obj st en fs cs : is_ostart st = true -> is_end en = true -> cfs fs cs ->
+    cv (VObject fs VNil) (st :: cs ++ [en])
+| cv_arr st en items cs : is_astart st = true -> is_end en = true -> cis items cs ->
+    cv (VArray items) (st :: cs ++ [en])
+| cv_obj_empty st en : is_ostart st = true -> is_end en = true -> cv (VArray VNil) [st; en]
 (* write_start: the container kind is decided by what follows -- an explicit operator after the
    first scalar makes it an object, anything else an array *)
-| cv_obj_unk k kd key o v cs1 fs cs2 : call_text k = Some (kd, key) -> cv v cs1 -> cfs fs cs2 ->
-    cv (VObject (FCons (Field kd key (Some o) v) fs) VNil) (CStart :: k :: COperator o :: cs1 ++ cs2 ++ [CEnd])
-| cv_arr_unk items cs : cis items cs -> cv (VArray items) (CStart :: cs ++ [CEnd])
+| cv_obj_unk en k kd key o v cs1 fs cs2 : is_end en = true -> call_text k = Some (kd, key) -> cv v cs1 -> cfs fs cs2 ->
+    cv (VObject (FCons (Field kd key (Some o) v) fs) VNil) (CStart :: k :: COperator o :: cs1 ++ cs2 ++ [en])
+| cv_arr_unk en items cs : is_end en = true -> cis items cs -> cv (VArray items) (CStart :: cs ++ [en])
 | cv_hdr h v cs : is_container v = true -> cv v cs -> cv (VHeader h v) (CHeader h :: cs)
-| cv_rgb r g b a v : cv v (rgb_expand r g b a) -> cv v [CRgb r g b a]
+| cv_rgb k r g b a v : is_rgb k r g b a -> cv v (rgb_expand r g b a) -> cv v [k]
 with cf : field -> list call -> Prop :=
 | cf_field k kd key op ops v cs : call_text k = Some (kd, key) -> cop op ops -> cv v cs ->
     cf (Field kd key op v) (k :: ops ++ cs)
@@ -92,7 +110,9 @@ Qed.
 Lemma step_scalar k kd s w : call_text k = Some (kd, s) ->
   Writer.step fdisp c w k = WOk (epi_state (pre_state w)) (pre_bytes c w ++ scalar_bytes kd s).
 Proof.
-  intros H. destruct k; try discriminate H; cbn [call_text] in H; inversion H; subst; cbn [Writer.step scalar_bytes];
+  intros H. destruct k as [| | | | | | | | | | | | | | | | | | | | |t]; try discriminate H;
+    try destruct t; try discriminate H; cbn [call_text] in H; inversion H; subst;
+    cbn [Writer.step write_binary scalar_bytes];
     rewrite ?write_raw_shape, ?write_quoted_shape, ?app_nil_r; reflexivity.
 Qed.
 
@@ -118,18 +138,25 @@ Proof.
   destruct Hp as [[-> [-> | ->]] | [-> [-> | [-> | [-> | ->]]]]]; reflexivity.
 Qed.
 
-Lemma runw_end w m rest : w_depth w = m :: rest ->
-  runw w [CEnd] = WOk (mkwr m rest (match m with DObject => WKey | DArray => WArrayValue end) true MDisabled)
-                      ((if no_data_yet (w_state w) then [SP] else nli c (length rest)) ++ [RBRACE]).
-Proof. intros H. cbn [runw Writer.step]. rewrite (write_end_shape c w m rest H). cbn [wbind]. rewrite app_nil_r. reflexivity. Qed.
+Lemma step_end en w : is_end en = true -> Writer.step fdisp c w en = write_end c w.
+Proof. destruct en as [| | | | | | | | | | | | | | | | | | | | |t]; try discriminate; [reflexivity|]. destruct t; try discriminate. reflexivity. Qed.
+Lemma step_ostart st w : is_ostart st = true -> Writer.step fdisp c w st = write_object_start c w.
+Proof. destruct st as [| | | | | | | | | | | | | | | | | | | | |t]; try discriminate; [reflexivity|]. destruct t; try discriminate. reflexivity. Qed.
+Lemma step_astart st w : is_astart st = true -> Writer.step fdisp c w st = write_array_start c w.
+Proof. destruct st as [| | | | | | | | | | | | | | | | | | | | |t]; try discriminate; [reflexivity|]. destruct t; try discriminate. reflexivity. Qed.
 
-Lemma C_obj fs cs : Cfs fs cs -> Cv (VObject fs VNil) (CObjectStart :: cs ++ [CEnd]).
+Lemma runw_end en w m rest : is_end en = true -> w_depth w = m :: rest ->
+  runw w [en] = WOk (mkwr m rest (match m with DObject => WKey | DArray => WArrayValue end) true MDisabled)
+                      ((if no_data_yet (w_state w) then [SP] else nli c (length rest)) ++ [RBRACE]).
+Proof. intros He H. cbn [runw]. rewrite (step_end _ _ He), (write_end_shape c w m rest H). cbn [wbind]. rewrite app_nil_r. reflexivity. Qed.
+
+Lemma C_obj st en fs cs : is_ostart st = true -> is_end en = true -> Cfs fs cs -> Cv (VObject fs VNil) (st :: cs ++ [en]).
 Proof.
-  intros HF w Hp _. cbn [runw Writer.step]. rewrite write_object_start_shape, (start_state_vpos _ _ _ Hp).
+  intros Hst Hen HF w Hp _. cbn [runw]. rewrite (step_ostart _ _ Hst), write_object_start_shape, (start_state_vpos _ _ _ Hp).
   set (w1 := mkwr DObject (w_mode w :: w_depth w) WFirstKey true MDisabled).
   erewrite wbind_ok.
   2:{ rewrite runw_app, (HF w1) by (repeat split; auto). erewrite wbind_ok; [reflexivity|].
-      apply (runw_end _ (w_mode w) (w_depth w)). destruct fs; reflexivity. }
+      apply (runw_end _ _ (w_mode w) (w_depth w) Hen). destruct fs; reflexivity. }
   f_equal; [unfold vpost; destruct (w_mode w); reflexivity|].
   cbn [ch_value]. rewrite cbytes_cons, cbytes_app, cbytes_cons. change (cbytes []) with (@nil N).
   cbn [lbrace rbrace fst]. rewrite !app_nil_r, <- !app_assoc. f_equal. f_equal.
@@ -137,13 +164,13 @@ Proof.
   destruct fs; reflexivity.
 Qed.
 
-Lemma C_arr items cs : Cis items cs -> Cv (VArray items) (CArrayStart :: cs ++ [CEnd]).
+Lemma C_arr st en items cs : is_astart st = true -> is_end en = true -> Cis items cs -> Cv (VArray items) (st :: cs ++ [en]).
 Proof.
-  intros HI w Hp _. cbn [runw Writer.step]. rewrite write_array_start_shape, (start_state_vpos _ _ _ Hp).
+  intros Hst Hen HI w Hp _. cbn [runw]. rewrite (step_astart _ _ Hst), write_array_start_shape, (start_state_vpos _ _ _ Hp).
   set (w1 := mkwr DArray (w_mode w :: w_depth w) WArrayValueFirst true MDisabled).
   erewrite wbind_ok.
   2:{ rewrite runw_app, (HI w1) by (repeat split; unfold astate; auto). erewrite wbind_ok; [reflexivity|].
-      apply (runw_end _ (w_mode w) (w_depth w)). destruct items; [reflexivity|]. rewrite ipost_cons_eq; auto. }
+      apply (runw_end _ _ (w_mode w) (w_depth w) Hen). destruct items; [reflexivity|]. rewrite ipost_cons_eq; auto. }
   f_equal; [unfold vpost; destruct (w_mode w); reflexivity|].
   cbn [ch_value]. rewrite cbytes_cons, cbytes_app, cbytes_cons. change (cbytes []) with (@nil N).
   cbn [lbrace rbrace fst]. rewrite !app_nil_r, <- !app_assoc. f_equal. f_equal.
@@ -151,15 +178,15 @@ Proof.
   destruct items; [reflexivity|]. rewrite ipost_cons_eq; auto.
 Qed.
 
-Lemma C_arr_unk items cs : Cis items cs -> Cv (VArray items) (CStart :: cs ++ [CEnd]).
+Lemma C_arr_unk en items cs : is_end en = true -> Cis items cs -> Cv (VArray items) (CStart :: cs ++ [en]).
 Proof.
-  intros HI w Hp _. cbn [runw Writer.step]. rewrite write_start_shape, (start_state_vpos _ _ _ Hp).
+  intros Hen HI w Hp _. cbn [runw Writer.step]. rewrite write_start_shape, (start_state_vpos _ _ _ Hp).
   set (w1 := mkwr DArray (w_mode w :: w_depth w) WFirstUnknown true MDisabled).
   assert (Hp1 : ipos w1) by (repeat split; unfold astate; auto).
   destruct (ipost_general w1 items Hp1) as [Hd Hn].
   erewrite wbind_ok.
   2:{ rewrite runw_app, (HI w1) by exact Hp1. erewrite wbind_ok; [reflexivity|].
-      apply (runw_end _ (w_mode w) (w_depth w)). exact Hd. }
+      apply (runw_end _ _ (w_mode w) (w_depth w) Hen). exact Hd. }
   f_equal; [unfold vpost; destruct (w_mode w); reflexivity|].
   cbn [ch_value]. rewrite cbytes_cons, cbytes_app, cbytes_cons. change (cbytes []) with (@nil N).
   cbn [lbrace rbrace fst]. rewrite !app_nil_r, <- !app_assoc. f_equal. f_equal.
@@ -167,10 +194,10 @@ Proof.
   rewrite Hn. destruct items; reflexivity.
 Qed.
 
-Lemma C_obj_unk k kd key o v cs1 fs cs2 : call_text k = Some (kd, key) -> Cv v cs1 -> Cfs fs cs2 ->
-  Cv (VObject (FCons (Field kd key (Some o) v) fs) VNil) (CStart :: k :: COperator o :: cs1 ++ cs2 ++ [CEnd]).
+Lemma C_obj_unk en k kd key o v cs1 fs cs2 : is_end en = true -> call_text k = Some (kd, key) -> Cv v cs1 -> Cfs fs cs2 ->
+  Cv (VObject (FCons (Field kd key (Some o) v) fs) VNil) (CStart :: k :: COperator o :: cs1 ++ cs2 ++ [en]).
 Proof.
-  intros Hk HV HF w Hp _. cbn [runw Writer.step]. rewrite write_start_shape, (start_state_vpos _ _ _ Hp).
+  intros Hen Hk HV HF w Hp _. cbn [runw Writer.step]. rewrite write_start_shape, (start_state_vpos _ _ _ Hp).
   set (D := w_mode w :: w_depth w).
   set (w1 := mkwr DArray D WFirstUnknown true MDisabled).
   set (wa := mkwr DArray D WSecondUnknown false MDisabled).
@@ -187,7 +214,7 @@ Proof.
       erewrite wbind_ok; [reflexivity|].
       rewrite runw_app, (HF w3) by (repeat split; auto).
       erewrite wbind_ok; [reflexivity|].
-      apply (runw_end _ (w_mode w) (w_depth w)). destruct fs; reflexivity. }
+      apply (runw_end _ _ (w_mode w) (w_depth w) Hen). destruct fs; reflexivity. }
   f_equal; [unfold vpost; destruct (w_mode w); reflexivity|].
   cbn [ch_value ch_fields ch_field op_or_eq fields_empty close_gap].
   rewrite cbytes_cons, !cbytes_app, !cbytes_cons. change (cbytes []) with (@nil N).
@@ -200,10 +227,10 @@ Proof.
   destruct o; cbn [opgap op_symbol app]; rewrite ?app_nil_r, <- ?app_assoc; cbn [app]; repeat (f_equal; try reflexivity).
 Qed.
 
-Lemma C_obj_empty : Cv (VArray VNil) [CObjectStart; CEnd].
+Lemma C_obj_empty st en : is_ostart st = true -> is_end en = true -> Cv (VArray VNil) [st; en].
 Proof.
-  intros w Hp _. cbn [runw Writer.step]. rewrite write_object_start_shape, (start_state_vpos _ _ _ Hp).
-  erewrite wbind_ok; [|apply (runw_end _ (w_mode w) (w_depth w)); reflexivity].
+  intros Hst Hen w Hp _. cbn [runw]. rewrite (step_ostart _ _ Hst), write_object_start_shape, (start_state_vpos _ _ _ Hp).
+  erewrite wbind_ok; [|apply (runw_end _ _ (w_mode w) (w_depth w) Hen); reflexivity].
   f_equal; [unfold vpost; destruct (w_mode w); reflexivity|].
   cbn [ch_value ch_items app]. rewrite !cbytes_cons. change (cbytes []) with (@nil N).
   cbn [lbrace rbrace fst]. rewrite !app_nil_r, <- !app_assoc. reflexivity.
@@ -220,11 +247,12 @@ Proof.
   rewrite <- !app_assoc. reflexivity.
 Qed.
 
-Lemma C_rgb r g b a v : Cv v (rgb_expand r g b a) -> Cv v [CRgb r g b a].
+Lemma C_rgb k r g b a v : is_rgb k r g b a -> Cv v (rgb_expand r g b a) -> Cv v [k].
 Proof.
-  intros H w Hp Hm. rewrite <- (H w Hp Hm). unfold rgb_expand. cbn [runw Writer.step app]. unfold write_rgb.
-  rewrite write_header_shape. cbn [wbind]. rewrite write_array_start_shape. cbn [wbind].
-  repeat (rewrite write_raw_shape; cbn [wbind]).
+  intros Hk H w Hp Hm. rewrite <- (H w Hp Hm). unfold rgb_expand.
+  destruct Hk as [-> | ->]; cbn [runw Writer.step write_binary app]; unfold write_rgb;
+  rewrite write_header_shape; cbn [wbind]; rewrite write_array_start_shape; cbn [wbind];
+  repeat (rewrite write_raw_shape; cbn [wbind]);
   destruct a; cbn [app runw Writer.step]; repeat (rewrite write_raw_shape; cbn [wbind emit]); cbn [wbind emit];
     match goal with |- context [write_end ?c ?w] => destruct (write_end c w) end; cbn [wbind]; rewrite ?app_nil_r, <- ?app_assoc; reflexivity.
 Qed.
@@ -245,7 +273,12 @@ Proof.
   set (w1 := mkwr DObject (w_depth w) WKeyValueSeparator false MDisabled).
   set (w2 := mkwr DObject (w_depth w) WObjectValue false MDisabled).
   assert (Hh : is_header v = true -> DObject = DObject) by reflexivity.
-  destruct Hop as [[-> Hop] | [o [-> ->]]].
+  assert (Hop' : (ops = [] /\ (op = None \/ op = Some Equal)) \/
+                 (exists o k2, op = Some o /\ ops = [k2] /\ forall w, Writer.step fdisp c w k2 = write_operator w o)).
+  { destruct Hop as [H | [[o [-> ->]] | [-> ->]]]; [left; exact H| |]; right.
+    - exists o, (COperator o). auto.
+    - exists Equal, (CBinary BEqual). auto. }
+  clear Hop. destruct Hop' as [[-> Hop] | [o [k2 [-> [-> Hk2]]]]].
   - (* implicit `=` *)
     erewrite wbind_ok; [|cbn [app]; apply (HV w1); [split; [reflexivity|left; auto]|exact Hh]].
     f_equal. cbn [ch_field]. replace (op_or_eq op) with Equal by (destruct Hop as [-> | ->]; reflexivity).
@@ -253,11 +286,11 @@ Proof.
     rewrite (cb_g0_value _ _ (pre_bytes c w1)). change (pre_bytes c w1) with [61%N]. change (dep w1) with (dep w).
     rewrite <- !app_assoc. reflexivity.
   - (* explicit operator *)
-    cbn [app runw Writer.step].
+    cbn [app runw].
     assert (Hw : write_operator w1 o = WOk w2 (match o with Equal => [EQ] | _ => [SP] ++ op_symbol o ++ [SP] end))
       by reflexivity.
     erewrite wbind_ok.
-    2:{ rewrite Hw. erewrite wbind_ok; [reflexivity|]. apply (HV w2); [split; [reflexivity|left; auto]|exact Hh]. }
+    2:{ rewrite Hk2, Hw. erewrite wbind_ok; [reflexivity|]. apply (HV w2); [split; [reflexivity|left; auto]|exact Hh]. }
     f_equal. cbn [ch_field op_or_eq]. rewrite !cbytes_cons. cbn [stok optk fst].
     rewrite (cb_g0_value _ _ (opgap o)). change (pre_bytes c w2) with (@nil N). change (dep w2) with (dep w).
     destruct o; cbn [opgap op_symbol app]; rewrite <- ?app_assoc; reflexivity.
@@ -283,13 +316,13 @@ Lemma calls_all :
 Proof.
   apply calls_mutind.
   - intros k kd s H. apply C_scalar, H.
-  - intros fs cs _ H. apply C_obj, H.
-  - intros items cs _ H. apply C_arr, H.
-  - apply C_obj_empty.
-  - intros k kd key o v cs1 fs cs2 Hk _ HV _ HF. apply C_obj_unk; assumption.
-  - intros items cs _ H. apply C_arr_unk, H.
+  - intros st en fs cs Hst Hen _ H. apply C_obj; assumption.
+  - intros st en items cs Hst Hen _ H. apply C_arr; assumption.
+  - intros st en Hst Hen. apply C_obj_empty; assumption.
+  - intros en k kd key o v cs1 fs cs2 Hen Hk _ HV _ HF. apply C_obj_unk; assumption.
+  - intros en items cs Hen _ H. apply C_arr_unk; assumption.
   - intros h v cs Hc _ H. apply C_hdr; assumption.
-  - intros r g b a v _ H. apply C_rgb, H.
+  - intros k r g b a v Hk _ H. apply (C_rgb k r g b a); assumption.
   - intros k kd key op ops v cs Hk Hop _ H. apply C_field; assumption.
   - intros w _. reflexivity.
   - intros f fs a b _ Hf _ Hfs. apply C_fs_cons; assumption.
